@@ -29,7 +29,123 @@ def norm_msg(ex, v):
     return v
 
 
+PROLOGUE_GRAMMARS = {"am": "-ab=x", "g1": "-ab=0", "c1": "-vt=a"}
+
+
+def run_prologue_job(job, build):
+    """text-layer clause: `run_inner` itself (short-name table, State::construct on argv *bytes*, the
+    ambiguity report) executed from both MIR dumps on the same symbolic bytes, `run_subparser` and
+    `Message::render` cut.  Both builds must either report the same Message or hand the same item
+    vector to run_subparser."""
+    from .C02 import new_text_exec
+    from mirsym import textmodels as TM
+    from mirsym.models import NONE, rda
+    progs = {fs: tok.load_program(build, fs) for fs in FEATURE_SETS}
+    exs = {}
+    for fs in FEATURE_SETS:
+        ex = new_text_exec(progs[fs], step_budget=600000)
+        ex.models = dict(ex.models)
+        ex.models["OptionParser::run_subparser"] = lambda ex_, c, args: Opaque("proceed", (rda(args[1]),))
+        ex.models["Message::render"] = lambda ex_, c, args: Opaque("rendered", (args[0],))
+        exs[fs] = ex
+    ea, eb = exs["none"], exs["full"]
+    eb.strtab, eb.strrev, eb.axioms = ea.strtab, ea.strrev, ea.axioms
+    g = CORPUS[job["grammar"]]
+    lens = job["lens"]
+    alpha = [ord(c) for c in PROLOGUE_GRAMMARS[job["grammar"]]]
+    out = {"stats": None, "cex": [], "inconclusive": [], "samples": [], "nontrivial": 0, "classes": {}, "joint": 0}
+
+    def harness(ex):
+        ex.fresh_n = 0
+        LA = ex.prog.layout
+        parser = ex.call(parse_callee(g.builder), [])
+        words = []
+        for ln in lens:
+            bs = [ex.fresh("b", 8) for _ in range(ln)]
+            for b in bs:
+                ex.assume(z3.Or(*[b == a for a in alpha]))
+            words.append(bs)
+        d = {"items": PyIter("vec_into", Seq(tuple(BStr(tuple(w)) for w in words)), 0), "name": NONE, "c_rev": NONE}
+        args = Adt("Args", 0, tuple(d[f] for f in LA.adts["Args"]["fields"]))
+        res = ex.call(parse_callee("OptionParser::run_inner"), [Ref(Cell(parser, "p"), ()), args])
+        return (words, res)
+
+    def view(ex, res):
+        """('proceed', items) | ('report', message)"""
+        if type(res) is Opaque and res.tag == "proceed":
+            f = lemmas.fields_of(ex, res.payload[0])
+            return ("proceed", (f["items"], Seq(tuple(x.var for x in f["item_state"].items)), f["remaining"], f["scope"]))
+        if type(res) is Adt and res.ty == "Result" and res.var == 1 and type(res.fields[0]) is Opaque and res.fields[0].tag == "rendered":
+            return ("report", res.fields[0].payload[0])
+        return ("other", res)
+
+    def on_a(ex, ra):
+        if ra.kind != "ok":
+            out["inconclusive"].append("panic on a `{}` path: %r" % (ra.info,))
+            return
+        wa, resa = ra.value
+        ka, va = view(ea, resa)
+        out["classes"][ka] = out["classes"].get(ka, 0) + 1
+        if ea.pc:
+            out["nontrivial"] += 1
+        eb.path_axioms = list(ea.pc)
+
+        def on_b(exb, rb):
+            out["joint"] += 1
+            bad = None
+            if rb.kind != "ok":
+                kb, vb = "panic", None
+                bad = "full-feature build panics: %r" % (rb.info,)
+            else:
+                wb, resb = rb.value
+                kb, vb = view(eb, resb)
+                if ka != kb:
+                    bad = "run_inner %ss in the `{}` build and %ss in the full-feature build" % (ka, kb)
+                elif ka == "other":
+                    out["inconclusive"].append("unexpected run_inner result %r" % (resa,))
+                else:
+                    eq = val_eq(eb, va, vb)
+                    if eq is not True:
+                        m = eb.prove(eq) if eq is not False else eb.model()
+                        if m is not None:
+                            if eq is not False:
+                                eb.solver.add(z3.Not(eq))
+                            bad = "%s differs between the builds" % ("item vector" if ka == "proceed" else "reported Message")
+            m = eb.model()
+            argv = ["".join(chr(m.eval(b, model_completion=True).as_long()) for b in w) for w in wa]
+            if bad:
+                out["cex"].append({"kind": "feature-dependent", "grammar": job["grammar"], "shape": ["bytes%d" % n for n in lens], "argv": argv, "env": {},
+                                   "predicted": [[ka, None], [kb, None]], "expected": "equal", "why": bad})
+            elif len(out["samples"]) < 2:
+                out["samples"].append({"grammar": job["grammar"], "argv": argv, "class": "run_inner " + ka, "both_builds_agree": True})
+        eb.explore(harness, on_b, max_paths=5000)
+
+    try:
+        ea.explore(harness, on_a, max_paths=100000)
+    except Unmodelled as e:
+        out["inconclusive"].append("UNMODELLED %s [%s]" % (e, "/".join((eb.callstack or ea.callstack)[-3:])))
+    except BoundExceeded as e:
+        out["inconclusive"].append("BOUND %s" % e)
+    except ExecError as e:
+        out["inconclusive"].append("EXEC-ERROR %s [%s]" % (e, "/".join((eb.callstack or ea.callstack)[-3:])))
+    st = dict(ea.stats)
+    for k, v in eb.stats.items():
+        st[k] = st.get(k, 0) + v
+    out["stats"] = st
+    out["models_used"] = {k: ea.model_hits.get(k, 0) + eb.model_hits.get(k, 0) for k in set(ea.model_hits) | set(eb.model_hits)}
+    out["fn_hits"] = {k: ea.fn_hits.get(k, 0) + eb.fn_hits.get(k, 0) for k in set(ea.fn_hits) | set(eb.fn_hits)}
+    if out["cex"]:
+        ra_ = Replayer(build["sets"]["none"]["replay"]).run([(c["grammar"], c["argv"], {}) for c in out["cex"]])
+        rb_ = Replayer(build["sets"]["full"]["replay"]).run([(c["grammar"], c["argv"], {}) for c in out["cex"]])
+        for c, x, y in zip(out["cex"], ra_, rb_):
+            c["native"] = [list(x), list(y)]
+            c["reproduced"] = tuple(x) != tuple(y)
+    return out
+
+
 def run_job(job, build):
+    if job.get("kind") == "prologue":
+        return run_prologue_job(job, build)
     pa = tok.load_program(build, "none")
     pb = tok.load_program(build, "full")
     ea = tok.new_exec(pa, step_budget=800000)
@@ -161,6 +277,14 @@ def make_jobs(tier, seed, build):
         g = CORPUS[gname]
         for shape in tok.all_shapes_by_words(nmax, g.decl):
             jobs.append({"id": "%s:%s" % (gname, ",".join(shape)), "grammar": gname, "shape": shape})
+    import itertools
+    wmax, lmax = (2, 4) if tier == "quick" else (3, 4)
+    for gname in PROLOGUE_GRAMMARS:
+        for n in range(1, wmax + 1):
+            for lens in itertools.product(range(1, lmax + 1), repeat=n):
+                if sum(lens) > (6 if tier == "quick" else 8):
+                    continue
+                jobs.append({"id": "prologue:%s:%s" % (gname, ",".join(map(str, lens))), "kind": "prologue", "grammar": gname, "lens": list(lens), "shape": ()})
     return jobs
 
 
@@ -223,7 +347,8 @@ def finish(results, jobs, build, out, tier, seed, wall):
         "solver_time_s": st["solver_s"],
         "mir_statements_executed": st["steps"],
         "outcome_classes": fw.merge_counts(results, "classes"),
-        "bounds": {"argv_words": "0..=%d (up to twice as many items)" % nmax, "grammars": GRAMMARS, "feature_sets": ["{}", "{autocomplete,docgen,batteries}"]},
+        "bounds": {"argv_words": "0..=%d (up to twice as many items)" % nmax, "grammars": GRAMMARS, "feature_sets": ["{}", "{autocomplete,docgen,batteries}"],
+                   "run_inner_prologue": "grammars %s; argv of 1..=%d words of 1..=4 symbolic bytes over a 5-letter alphabet per grammar (dash, equals, two declared shorts, one other), total <= %d bytes" % (sorted(PROLOGUE_GRAMMARS), 2 if tier == "quick" else 3, 6 if tier == "quick" else 8)},
         "jobs": len(jobs),
         "functions_encoded": sorted(fw.merge_counts(results, "fn_hits")),
         "models_used": fw.merge_counts(results, "models_used"),
@@ -234,6 +359,7 @@ def finish(results, jobs, build, out, tier, seed, wall):
     assumptions = [
         "State.comp = None in the full-feature build (argv without a completion marker)",
         "help / error *text* is cut at the render boundary; equality is shown for class, value, ledger and Message variant + plain payload fields",
+        "run_inner's own prologue (short-name table, State::construct on bytes, ambiguity report) is compared on symbolic argv bytes over small alphabets (prologue jobs); byte values outside the alphabet are covered by C02's construct jobs for the `{}` build only",
         "colour features and `derive` are not executed (see module docstring)",
         "token-layer assumptions of C01 apply",
     ]
